@@ -31,6 +31,8 @@ import (
 //	dec <Type> <B> <keys>        the real decoder on B: "ok <V> rest=<unread>" | "err" | "panic"
 //	decm <Type> <B> <keys>       dec, and the bytes allocated by the decoder are measured: a small input must not make it
 //	                             allocate tens of megabytes (memory reserved from a declared count)
+//	redec <Type> <A> <B> <keys>  A then B decoded into the same receiver = B decoded into a fresh one: "ok" | "err"
+//	rawitem StorageItem <len> <seed> <keys>   GenRawStorageItem / GetValueFromRawStorageItem at an exact value length
 //	holdenc <Type> <B1> <B2> <B3> <keys>   the three values are encoded, the returned slices kept, more encodings made (also from two
 //	                             goroutines), then every kept slice re-checked; StorageItem: GenRawStorageItem / GetValueFromRawStorageItem
 //	rt <Type> <V> <B> <keys>     B is the encoding of a value rendered V: decodes to V, re-encodes to B eight times (fresh
@@ -148,6 +150,18 @@ func recSer(obj interface{}) []byte {
 // recDeser calls the type's own decoder on data; rest is the unread byte count (-1: not observable).
 func recDeser(rt *recType, data []byte) (obj interface{}, rest int, err error) {
 	obj = rt.mk()
+	rest, err = recDeserInto(obj, data)
+	return obj, rest, err
+}
+
+// recDeserInto decodes data into an existing (possibly already used) receiver.
+func recDeserInto(obj interface{}, data []byte) (rest int, err error) {
+	o, rs, e := recDeserObj(obj, data)
+	_ = o
+	return rs, e
+}
+
+func recDeserObj(obj interface{}, data []byte) (_ interface{}, rest int, err error) {
 	switch x := obj.(type) {
 	case *ccmcom.MakeTxParamWithSender:
 		return obj, -1, x.Deserialization(append([]byte{}, data...))
@@ -280,10 +294,17 @@ func fillVal(r *hx.Run, v reflect.Value, depth int) {
 		}
 	case reflect.Slice:
 		if v.Type().Elem().Kind() == reflect.Uint8 {
-			v.SetBytes(r.Rng.Bytes(genLen(r)))
+			if forceBytesLen >= 0 {
+				v.SetBytes(r.Rng.Bytes(forceBytesLen))
+			} else {
+				v.SetBytes(r.Rng.Bytes(genLen(r)))
+			}
 			return
 		}
 		n := []int{0, 1, 2, 3, 5, 8}[r.Rng.Intn(6)]
+		if forceBytesLen >= 0 {
+			n = 2
+		}
 		if depth == 0 && r.Rng.Chance(1, 25) {
 			n = []int{0xfc, 0xfd, 0xfe, 300}[r.Rng.Intn(4)]
 		}
@@ -297,7 +318,11 @@ func fillVal(r *hx.Run, v reflect.Value, depth int) {
 			v.Index(i).SetUint(r.Rng.U64() & 0xff)
 		}
 	case reflect.String:
-		v.SetString(string(r.Rng.Bytes(genLen(r) % 70)))
+		if forceBytesLen >= 0 && depth == 0 {
+			v.SetString(string(r.Rng.Bytes(forceBytesLen)))
+		} else {
+			v.SetString(string(r.Rng.Bytes(genLen(r) % 70)))
+		}
 	case reflect.Uint8, reflect.Uint16, reflect.Uint32, reflect.Uint64, reflect.Uint:
 		bits := v.Type().Bits()
 		x := r.Rng.U64B()
@@ -314,6 +339,9 @@ func fillVal(r *hx.Run, v reflect.Value, depth int) {
 		v.SetBool(r.Rng.Bool())
 	case reflect.Map:
 		n := []int{0, 1, 2, 3, 6, 12, 40}[r.Rng.Intn(7)]
+		if forceBytesLen >= 0 {
+			n = 2
+		}
 		m := reflect.MakeMap(v.Type())
 		prefix := r.Rng.Bytes(3)
 		for i := 0; i < n; i++ {
@@ -352,6 +380,9 @@ func lastMapField(v reflect.Value) reflect.Value {
 	}
 	panic("no map field")
 }
+
+// forceBytesLen >= 0 makes fillVal give every byte string (and top-level string) exactly that length
+var forceBytesLen = -1
 
 type recordsFam struct {
 	sawPanic map[string]bool
@@ -581,6 +612,13 @@ func setListLens(r *hx.Run, v reflect.Value, n int) {
 	}
 }
 
+func min2(a, b int) int {
+	if a < b {
+		return a
+	}
+	return b
+}
+
 func hasList(t reflect.Type) bool {
 	if t == bigIntPtr {
 		return false
@@ -652,6 +690,63 @@ func (f *recordsFam) Exec(r *hx.Run, op []string) string {
 		return fmt.Sprintf("ok %s rest=%s", render(obj), rs)
 	case "holdenc":
 		return f.holdEnc(r, rt, op)
+	case "redec":
+		// redec <Type> <A> <B> <keys>: A is decoded into a receiver (it may fail: a truncated record), then B into the SAME receiver;
+		// the result must be what decoding B into a fresh receiver gives (nothing of A, or of A's prefix, may survive)
+		if len(op) != 5 {
+			return "bad-op"
+		}
+		a, b := hx.UnHex(op[2]), hx.UnHex(op[3])
+		res, pm := guarded(func() string {
+			freshObj, _, ferr := recDeser(rt, b)
+			used := rt.mk()
+			recDeserInto(used, a)
+			_, uerr := recDeserInto(used, b)
+			if (ferr == nil) != (uerr == nil) {
+				r.Viol("C04:decode-into-used-receiver-differs:"+rt.name, fmt.Sprintf("decoding %s into a fresh receiver: err=%v; into a receiver that first decoded %s: err=%v", trunc(hx.Hex(b), 120), ferr, trunc(hx.Hex(a), 120), uerr))
+				return "FAIL:err-differs"
+			}
+			if ferr != nil {
+				return "err"
+			}
+			if render(used) != render(freshObj) || !bytes.Equal(recSer(used), recSer(freshObj)) {
+				r.Viol("C04:decode-into-used-receiver-differs:"+rt.name, fmt.Sprintf("decoding %s into a receiver that first decoded %s gives %s; a fresh receiver gives %s", trunc(hx.Hex(b), 120), trunc(hx.Hex(a), 120), trunc(render(used), 200), trunc(render(freshObj), 200)))
+				return "FAIL:differs"
+			}
+			return "ok"
+		})
+		if res == "panic" {
+			f.sawPanic[rt.name] = true
+			r.Viol("C04:decoder-panic:"+rt.name+":"+panicSite(pm), "redec panics: "+pm)
+		}
+		return res
+	case "rawitem":
+		// rawitem StorageItem <len> <seed> <keys>: GenRawStorageItem of a value of exactly <len> bytes against the reference layout
+		// (state version 0, var-uint length, value), read back with GetValueFromRawStorageItem and StorageItem.Deserialize
+		if rt.name != "StorageItem" || len(op) != 5 {
+			return "bad-op"
+		}
+		n, seed := int(pu(op[2], 31)), int(pu(op[3], 31))
+		val := make([]byte, n)
+		for i := range val {
+			val[i] = byte((seed + i) % 251)
+		}
+		raw := cstates.GenRawStorageItem(val)
+		want := append(append([]byte{0}, varuintBytes(uint64(n), 0)...), val...)
+		ok := true
+		if !bytes.Equal(raw, want) {
+			ok = false
+			r.Viol("C04:raw-storage-item-layout", fmt.Sprintf("GenRawStorageItem of a %d-byte value starts %s, reference layout starts %s", n, hx.Hex(raw[:min2(len(raw), 8)]), hx.Hex(want[:min2(len(want), 8)])))
+		}
+		if got, err := cstates.GetValueFromRawStorageItem(raw); err != nil || !bytes.Equal(got, val) {
+			ok = false
+			r.Viol("C04:raw-storage-item-roundtrip", fmt.Sprintf("GetValueFromRawStorageItem(GenRawStorageItem(v)) with len(v) = %d returns %d bytes, err %v", n, len(got), err))
+		}
+		res := "ok"
+		if !ok {
+			res = "FAIL"
+		}
+		return fmt.Sprintf("%s rawlen=%d head=%s", res, len(raw), hx.Hex(raw[:min2(len(raw), 6)]))
 	case "rt":
 		want, data := op[2], hx.UnHex(op[3])
 		obj, rest, res := f.decode(r, rt, data)
@@ -763,6 +858,62 @@ func (f *recordsFam) Gen(r *hx.Run) {
 				out := r.Do(fmt.Sprintf("dec %s %s keys=-", rt.name, hx.Hex(m)))
 				r.Hist("malformed." + outClass(out))
 				r.Nontrivial(fmt.Sprintf("%s-mut/%s/%d", rt.name, outClass(out), lenBucket(len(m))))
+			}
+		}
+		// every byte-string field at the var-uint boundary lengths 252 / 253 / 254
+		for _, n := range []int{252, 253, 254} {
+			newCase(rt.name + "-len" + strconv.Itoa(n))
+			forceBytesLen = n
+			o := rt.mk()
+			fillVal(r, reflect.ValueOf(o).Elem(), 0)
+			forceBytesLen = -1
+			if rt.fix != nil {
+				rt.fix(r, o)
+			}
+			r.Do(fmt.Sprintf("rt %s %s %s keys=-", rt.name, render(o), hx.Hex(recSer(o))))
+		}
+		// a receiver that was already used (another value decoded into it, or a failed decode of a truncated record)
+		for i := 0; i < r.Pick(3, 60); i++ {
+			newCase(rt.name + "-redec")
+			mkEnc := func() []byte {
+				o := rt.mk()
+				fillVal(r, reflect.ValueOf(o).Elem(), 0)
+				if i%3 == 0 {
+					setListLens(r, reflect.ValueOf(o).Elem(), 2)
+				}
+				if rt.fix != nil {
+					rt.fix(r, o)
+				}
+				return recSer(o)
+			}
+			a, b := mkEnc(), mkEnc()
+			if i%3 == 1 && len(a) > 2 {
+				a = a[:len(a)-1-r.Rng.Intn(len(a)/2)] // truncated: the first decode fails half way
+			}
+			r.Do(fmt.Sprintf("redec %s %s %s keys=-", rt.name, hx.Hex(a), hx.Hex(b)))
+		}
+		// longer (non-minimal) var-uint forms of every byte below 0xFD of a short encoding: accepted wherever it is a length prefix
+		if len(firstEnc) > 0 {
+			newCase(rt.name + "-forms")
+			lim := len(firstEnc)
+			if lim > r.Pick(60, 120) {
+				lim = r.Pick(60, 120)
+			}
+			for i := 0; i < lim; i++ {
+				if firstEnc[i] >= 0xfd {
+					continue
+				}
+				for _, form := range []int{1, 3} {
+					m := append(append(append([]byte{}, firstEnc[:i]...), varuintBytes(uint64(firstEnc[i]), form)...), firstEnc[i+1:]...)
+					out := r.Do(fmt.Sprintf("dec %s %s keys=-", rt.name, hx.Hex(m)))
+					r.Hist("forms." + outClass(out))
+				}
+			}
+		}
+		if rt.name == "StorageItem" {
+			for _, n := range []int{0, 1, 252, 253, 254, 255, 0xffff, 0x10000, 0x10001} {
+				newCase("StorageItem-rawitem")
+				r.Do(fmt.Sprintf("rawitem StorageItem %d %d keys=-", n, r.Rng.Intn(250)))
 			}
 		}
 		// encoders hand out byte slices: three values encoded, results held, more encodings made, earlier results re-checked
